@@ -50,3 +50,14 @@ INJECTIONS += [
          anchor=r'impl<T, N: ArrayLength> Drop for GenericArrayIter<T, N> \{\s*fn drop\(&mut self\) \{',
          text='        #[cfg(kani)] let _verif_scope = crate::verif_support::IterDropScope::enter();'),
 ]
+
+# ---- unwind monitor: `finish()` forgets the builder, which from then on guards nothing.  `finish` is a const fn, so
+# the run-time registration goes through const_eval_select (compile-time twin is a no-op). ----
+INJECTIONS += [
+    dict(group='mon', name='crate feature gate for const_eval_select (cfg(kani) only)', file='src/lib.rs', where='after',
+         anchor=r'#!\[no_std\]',
+         text='#![cfg_attr(kani, feature(core_intrinsics, const_eval_select))]\n#![cfg_attr(kani, allow(internal_features))]'),
+    dict(group='mon', name='monitor: IntrusiveArrayBuilder::finish', file='src/internal.rs', where='after',
+         anchor=r'pub const unsafe fn finish\(self\) \{',
+         text='        #[cfg(kani)] core::intrinsics::const_eval_select((&self.position as *const usize,), crate::verif_support::fin_builder_ct, crate::verif_support::fin_builder);'),
+]
